@@ -162,7 +162,20 @@ def _pick_blocklen(r, form):
     return n
 
 
-KINDS = ['uleb', 'sleb', 'int', 'i24', 'cstr', 'cstr_fn', 'block', 'rue', 'ilen', 'form_string']
+KINDS = ['uleb', 'sleb', 'int', 'i24', 'cstr', 'cstr_fn', 'block', 'rue', 'ilen', 'form_string', 'ds_int', 'abbrev']
+
+# the primitives as a DWARFStructs instance hands them out: attribute -> (width in bytes or 'fmt'/'addr', signed)
+DS_ATTRS = {'Dwarf_uint8': (1, False), 'Dwarf_uint16': (2, False), 'Dwarf_uint24': (3, False), 'Dwarf_uint32': (4, False),
+            'Dwarf_uint64': (8, False), 'Dwarf_int8': (1, True), 'Dwarf_int16': (2, True), 'Dwarf_int32': (4, True),
+            'Dwarf_int64': (8, True), 'Dwarf_offset': ('fmt', False), 'Dwarf_length': ('fmt', False),
+            'Dwarf_target_addr': ('addr', False), 'Dwarf_uleb128': ('uleb', False), 'Dwarf_sleb128': ('sleb', True)}
+
+# abbreviation declarations: standard codes with their registry names (own table)
+AB_TAGS = {0x11: 'DW_TAG_compile_unit', 0x2e: 'DW_TAG_subprogram', 0x34: 'DW_TAG_variable', 0x24: 'DW_TAG_base_type', 0x13: 'DW_TAG_structure_type'}
+AB_ATS = {0x03: 'DW_AT_name', 0x49: 'DW_AT_type', 0x0b: 'DW_AT_byte_size', 0x1c: 'DW_AT_const_value', 0x3a: 'DW_AT_decl_file',
+          0x3b: 'DW_AT_decl_line', 0x11: 'DW_AT_low_pc'}
+AB_FORMS = {0x0b: 'DW_FORM_data1', 0x0e: 'DW_FORM_strp', 0x13: 'DW_FORM_ref4', 0x0f: 'DW_FORM_udata', 0x0d: 'DW_FORM_sdata',
+            0x08: 'DW_FORM_string', 0x19: 'DW_FORM_flag_present', 0x21: 'DW_FORM_implicit_const'}
 
 
 def gen_entry(r, kind):
@@ -185,6 +198,42 @@ def gen_entry(r, kind):
         little = r.random() < 0.5
         v = r.choice([0, 1, 0xff, 0x100, 0xffff, 0x10000, 0x7fffff, 0x800000, 0xffffff, r.getrandbits(24), r.getrandbits(24)])
         return {'little': little}, v.to_bytes(3, 'little' if little else 'big'), v, 'ok'
+    if kind == 'ds_int':
+        attr = r.choice(sorted(DS_ATTRS))
+        little = r.random() < 0.5
+        fmt = r.choice([32, 64])
+        asz = r.choice([4, 8])
+        width, signed = DS_ATTRS[attr]
+        params = {'attr': attr, 'little': little, 'fmt': fmt, 'asz': asz}
+        if width == 'uleb':
+            v = _pick_uleb(r)
+            return params, enc_uleb(v), v, 'ok'
+        if width == 'sleb':
+            v = _pick_sleb(r)
+            return params, enc_sleb(v), v, 'ok'
+        width = {'fmt': fmt // 8, 'addr': asz}.get(width, width)
+        if width == 3:
+            v = r.choice([0, 1, 0xff, 0x100, 0xffff, 0x10000, 0x7fffff, 0x800000, 0xffffff, 0x010203, r.getrandbits(24)])
+            return params, v.to_bytes(3, 'little' if little else 'big'), v, 'ok'
+        v = _pick_int(r, width, signed)
+        return params, enc_int(v, width, little, signed), v, 'ok'
+    if kind == 'abbrev':
+        little = r.random() < 0.5
+        tag = r.choice(sorted(AB_TAGS))
+        children = r.choice([0, 1])
+        specs = []
+        enc = enc_uleb(tag, r.choice([0, 0, 1])) + bytes([children])
+        for _ in range(r.choice([0, 1, 2, 3, 5, 9])):
+            at = r.choice(sorted(AB_ATS))
+            form = r.choice(sorted(AB_FORMS) + [0x21, 0x21])
+            enc += enc_uleb(at, r.choice([0, 0, 1])) + enc_uleb(form)
+            val = None
+            if form == 0x21:
+                val = _pick_sleb(r)            # DW_FORM_implicit_const: the value is a signed LEB128 in the declaration itself
+                enc += enc_sleb(val, r.choice([0, 0, 2]))
+            specs.append([AB_ATS[at], AB_FORMS[form], val])
+        enc += b'\0\0'
+        return {'little': little}, enc, [AB_TAGS[tag], 'DW_CHILDREN_yes' if children else 'DW_CHILDREN_no', specs], 'ok'
     if kind in ('cstr', 'cstr_fn', 'form_string'):
         n = _pick_strlen(r)
         if r.random() < 0.2:
@@ -321,6 +370,10 @@ def _construct_for(kind, params):
         c = cu.RepeatUntilExcluding(lambda obj, ctx: obj == 0, sub)
     elif kind == 'ilen':
         c = DWARFStructs(params['little'], 32, 8, 4).Dwarf_initial_length('')
+    elif kind == 'ds_int':
+        c = getattr(DWARFStructs(params['little'], params['fmt'], params['asz'], 4), params['attr'])('')
+    elif kind == 'abbrev':
+        c = DWARFStructs(params['little'], 32, 8, 5).Dwarf_abbrev_declaration
     else:
         raise AssertionError(kind)
     _CONS[key] = c
@@ -338,6 +391,8 @@ def _parse(kind, params, stream, pos):
         v = struct_parse(_construct_for(kind, params), stream, pos)
         if kind in ('block', 'rue'):
             v = list(v)
+        if kind == 'abbrev':
+            v = [v['tag'], v['children_flag'], [[a['name'], a['form'], a.get('value')] for a in v['attr_spec']]]
         return ('ok', v)
     except ELFParseError as e:
         return ('perr', str(e)[:100])
@@ -354,6 +409,10 @@ def _label(e):
         return 'ULInt24' if p['little'] else 'UBInt24'
     if k == 'block':
         return p['form']
+    if k == 'ds_int':
+        return 'DWARFStructs(%s).%s' % ('little' if p['little'] else 'big', p['attr'])
+    if k == 'abbrev':
+        return 'Dwarf_abbrev_declaration'
     return {'uleb': 'ULEB128', 'sleb': 'SLEB128', 'cstr': 'CString', 'cstr_fn': 'parse_cstring_from_stream',
             'rue': 'RepeatUntilExcluding', 'ilen': 'initial_length', 'form_string': 'DW_FORM_string'}[k]
 
@@ -540,7 +599,9 @@ def describe(prop):
     return dict(
         level='exploration',
         rule=('run = seeded image pad|E1..En|tail from an independent reference codec (boundary value classes, '
-              'non-minimal LEB128, strings around the 64-byte read chunk, blocks to 16 KiB, initial-length classes) + '
+              'non-minimal LEB128, strings around the 64-byte read chunk, blocks to 16 KiB, initial-length classes, every primitive a DWARFStructs '
+              'instance hands out (Dwarf_uint8..64, uint24, int8..64, offset, length, target_addr, LEB128 for both byte orders, formats and address sizes), '
+              'abbreviation declarations (repeat-until composite with signed implicit constants)) + '
               'seeded sequence of sequential / positional parses and cursor displacements + a sweep of an injected '
               'end-of-file at every byte of every encoding (sampled positions inside encodings longer than 40 bytes); '
               'plus enumerated sweeps: every byte string of length <=2 (quick) / <=3 (thorough) as LEB128 prefix and '
@@ -549,7 +610,7 @@ def describe(prop):
         components=dict(real=['elftools.common.utils.struct_parse/parse_cstring_from_stream',
                               'elftools.common.construct_utils (ULEB128, SLEB128, U[BL]Int24, RepeatUntilExcluding)',
                               'elftools.construct (fixed-width ints, CString, PrefixedArray)',
-                              'elftools.dwarf.structs (DW_FORM_block*/exprloc/string, initial length)'],
+                              'elftools.dwarf.structs (DW_FORM_block*/exprloc/string, initial length, the Dwarf_* primitive attributes, Dwarf_abbrev_declaration)'],
                         stub=['the byte stream (SimStream: cursor, injected EOF, accounting)']),
         assumptions=['initial-length words 0xffffff00..0xffffffef may be accepted or rejected (DWARF v3 reserves them, v4/v5 do not)',
                      'parse_cstring_from_stream leaves the stream position unspecified (documented), so consumption is not checked for it',
